@@ -388,10 +388,10 @@ Proof.
       destruct q.
       * eapply astep_eq; [apply A_decU|].
         unfold view; apply mkA_eq; rewrite ?A, ?E, ?F, ?G, ?I, ?J1, ?J2, ?K, ?Esh;
-          cbn [sh_qlen qlen flag eff_edge edge efd_cnt itemsU itemsL lenU lenL]; first [lia | reflexivity].
+          cbn [sh_qlen qlen flag eff_edge edge efd_cnt itemsU itemsL lenU lenL]; first [reflexivity | clear; lia].
       * eapply astep_eq; [apply A_decL|].
         unfold view; apply mkA_eq; rewrite ?A, ?E, ?F, ?G, ?I, ?J1, ?J2, ?K, ?Esh;
-          cbn [sh_qlen qlen flag eff_edge edge efd_cnt itemsU itemsL lenU lenL]; first [lia | reflexivity].
+          cbn [sh_qlen qlen flag eff_edge edge efd_cnt itemsU itemsL lenU lenL]; first [reflexivity | clear; lia].
   - (* CStore *)
     inv H. splits; [split; assumption|exact Hc|apply loop_ok_intro; [exact Hidle|exact Hch]|].
     src Epc. eapply astep_eq; [apply A_store|]. tgt.
